@@ -2,7 +2,9 @@
 // operations on different Lexicons equivalent to a sequential one: an operation on Lexicon A reads and writes only (i) A and what
 // was allocated on A's behalf, (ii) the executing thread's stack, (iii) immutable (IR `constant`) process-wide data.
 // Thread schedules themselves are not explored (see DESIGN.md, C20).
+#define VP_WITH_IO
 #include "fingerprint.h"
+#include "vpstream.h"
 #ifndef C20_REPS
 #define C20_REPS 2
 #endif
@@ -15,6 +17,7 @@ extern "C" void h_isolation(void) {
    for (unsigned k = 0; k < total; k += 7) zoo::build(*b, k, tb);
    b->reg->declare_var(*b->N[0], *b->T[0]); b->reg->declare_var(*b->N[0], *b->T[0]);
    tb.node<ipr::Scope>(b->reg->scope);
+   { std::ostringstream& ob = *new std::ostringstream; Printer pb { b->lx, ob }; vp_outcome([&] { pb << b->unit; }); b->lx.decompose(b->lx.static_specifier() | b->lx.inline_specifier()); }
    tb.snapshot();
    vp_phase(2);
    // ---- operations on Lexicon A: every load/store classified by the engine
@@ -26,6 +29,15 @@ extern "C" void h_isolation(void) {
    zoo::Null_visitor nv;
    for (int r = 0; r < C20_REPS; ++r) zoo::build(*a, which, nv);
    ta.recheck(1);
+   {  // decomposition of specifier / qualifier sets and printing of a unit with specifiers, qualified types and a literal
+      auto sp = a->lx.decompose(a->lx.static_specifier() | a->lx.constexpr_specifier() | a->lx.extern_specifier());
+      auto ql = a->lx.decompose(a->lx.const_qualifier() | a->lx.volatile_qualifier());
+      vp_assert(sp.size() == 3 && ql.size() == 2, 4);
+      impl::Var* v = a->reg->declare_var(*a->N[0], a->lx.get_qualified(a->lx.const_qualifier(), *a->T[0])); v->specifiers(a->lx.static_specifier() | a->lx.thread_local_specifier());
+      v->init = a->lx.make_literal(*a->T[0], u8"12");
+      std::ostringstream& oa = *new std::ostringstream; Printer pa { a->lx, oa };
+      vp_assert(vp_outcome([&] { pa << xpr_decl(*v, true); }) == 0 && vp_stream_contains(&oa, "const int"), 5);
+   }
    vp_phase(0);
    // ---- B is exactly as it was; the only nodes the two have in common are process-wide constants
    tb.recheck(2);
